@@ -1,2 +1,167 @@
-From Coq Require Import QArith List.
+(* C16 - Voronoi density compensation has the invariances of cell volumes.
+
+   Models: Model/Voronoi1D.v (dcf_1d as coded: unique / inverse / counts, central differences with the edge rule) and
+   Model/Voronoi2D.v (2-D path of dcf_2d3d_voronoi as half-plane clipping + shoelace + outlier rule + counts, and the
+   decomposition of DcfData.from_traj_voronoi).  They are tied to /repo on every run by the correspondence families
+   of harness/props/C16.py (dcf_1d, dcf_2d, from_traj_voronoi).
+
+   Full theorems: everything about the 1-D code; invariances of the shoelace area; soundness of clipping; equivariance of
+   the cell predicate; product layouts.
+   NOT proved (decided by correspondence / implementation-level oracles only):  completeness of clipping
+   (polygon = cell, hence "2-D weight = cell area" as a theorem - see C16_2d_polygon_in_cell_partial), order-independence
+   of the clipped polygon, the 3-D qhull path, and the IQR outlier rule (modelled and executed, not reasoned about). *)
+From Coq Require Import QArith Qabs List Permutation.
 From MrVerif Require Import Model.Voronoi1D Model.Voronoi2D Proofs.Voronoi1DProofs Proofs.Voronoi2DProofs.
+Import ListNotations.
+Open Scope Q_scope.
+
+(* ===================== 1-D ===================== *)
+
+(* the code (sort, unique, conv1d, edge rule, /counts, [inverse]) computes, for every sample, the length assigned to its
+   value by its nearest lower / upper neighbour among all samples, divided by its multiplicity; lists of any length *)
+Theorem C16_1d_code_eq_weight : forall l, Forall2 Qeq (dcf_1d l) (map (weight l) l).
+Proof. exact dcf_1d_eq_weight. Qed.
+Print Assumptions C16_1d_code_eq_weight.
+
+(* positive (hence defined) as soon as there are two distinct values *)
+Theorem C16_1d_positive : forall l, (exists x y, In x l /\ In y l /\ ~ x == y) -> Forall (Qlt 0) (dcf_1d l).
+Proof. exact dcf_1d_positive. Qed.
+Print Assumptions C16_1d_positive.
+
+(* permutation equivariance: the weight of a sample is a function of its value and the multiset of samples *)
+Theorem C16_1d_weight_perm : forall l l' x, Permutation l l' -> weight l x == weight l' x.
+Proof. exact weight_perm. Qed.
+Print Assumptions C16_1d_weight_perm.
+
+Theorem C16_1d_permutation : forall l l', Permutation l l' -> Forall2 Qeq (dcf_1d l') (map (weight l) l').
+Proof. exact dcf_1d_perm. Qed.
+Print Assumptions C16_1d_permutation.
+
+(* scaling k-space by a <> 0 multiplies every weight by |a| *)
+Theorem C16_1d_scaling : forall a l, ~ a == 0 -> (exists x y, In x l /\ In y l /\ ~ x == y) ->
+  Forall2 Qeq (dcf_1d (map (Qmult a) l)) (map (Qmult (Qabs a)) (dcf_1d l)).
+Proof. exact dcf_1d_scale. Qed.
+Print Assumptions C16_1d_scaling.
+
+(* translation invariance (all samples, edges included) *)
+Theorem C16_1d_translation : forall t l, Forall2 Qeq (dcf_1d (map (Qplus t) l)) (dcf_1d l).
+Proof. exact dcf_1d_translate. Qed.
+Print Assumptions C16_1d_translation.
+
+(* coincident samples get the same weight and together carry exactly the cell *)
+Theorem C16_1d_split : forall l x y, In x l -> x == y ->
+  weight l x == weight l y /\ qnat (count x l) * weight l x == cell_len l x.
+Proof. intros l x y Hx E. split; [apply weight_compat; exact E | apply weight_split; exact Hx]. Qed.
+Print Assumptions C16_1d_split.
+
+(* interior sample with nearest neighbours a < x < b: the samples at x share (b - a)/2, the length of the Voronoi cell *)
+Theorem C16_1d_interior : forall l x a b, In x l ->
+  InQ a l -> InQ b l -> a < x -> x < b ->
+  (forall s, In s l -> s < x -> s <= a) -> (forall s, In s l -> x < s -> b <= s) ->
+  qnat (count x l) * weight l x == (b - a) / 2 /\
+  (forall y, cell1 l x y <-> a + x <= 2 * y <= x + b).
+Proof.
+  intros l x a b Hx Ia Ib La Lb Ma Mb. split.
+  - rewrite weight_split by exact Hx. apply cell_len_interior; assumption.
+  - intros y. apply cell1_interior; assumption.
+Qed.
+Print Assumptions C16_1d_interior.
+
+(* ===================== 2-D ===================== *)
+
+(* shoelace area: translation invariant, |det|-equivariant under any linear map, a^2 under isotropic scaling,
+   invariant under rotations and reflections *)
+Theorem C16_shoelace_translation : forall t l, area (map (tr t) l) == area l.
+Proof. exact area_translate. Qed.
+Print Assumptions C16_shoelace_translation.
+
+Theorem C16_shoelace_linear : forall a b c d l, area (map (lin a b c d) l) == Qabs (a * d - b * c) * area l.
+Proof. exact area_lin. Qed.
+Print Assumptions C16_shoelace_linear.
+
+Theorem C16_shoelace_scaling : forall a l, area (map (lin a 0 0 a) l) == a * a * area l.
+Proof. exact area_scale. Qed.
+Print Assumptions C16_shoelace_scaling.
+
+Theorem C16_shoelace_rotation : forall a b c d l, a * d - b * c == 1 -> area (map (lin a b c d) l) == area l.
+Proof. exact area_rotation. Qed.
+Print Assumptions C16_shoelace_rotation.
+
+(* clipping: every vertex of the polygon computed for p lies in the Voronoi cell of p w.r.t. all other sites (and in every
+   half-plane bounding the start box).  PARTIAL w.r.t. "weight = area of the cell": the converse inclusion (completeness of
+   Sutherland-Hodgman for convex input) is not proved; it is covered by the dcf_2d correspondence family only. *)
+Theorem C16_2d_polygon_in_cell_partial : forall box p others x, In x (cell_poly box p others) -> cell2 others p x.
+Proof. exact cell_poly_sound. Qed.
+Print Assumptions C16_2d_polygon_in_cell_partial.
+
+Theorem C16_2d_polygon_in_box : forall g box p others x, Forall (sat g) box -> In x (cell_poly box p others) -> sat g x.
+Proof. exact cell_poly_in_box. Qed.
+Print Assumptions C16_2d_polygon_in_box.
+
+(* the cell itself (as a set) is equivariant: order of the sites, translations, rotations / reflections, scalings *)
+Theorem C16_cell2_permutation : forall P P' p x, Permutation P P' -> (cell2 P p x <-> cell2 P' p x).
+Proof. exact cell2_perm. Qed.
+Print Assumptions C16_cell2_permutation.
+
+Theorem C16_cell2_translation : forall t P p x, cell2 (map (tr t) P) (tr t p) (tr t x) <-> cell2 P p x.
+Proof. exact cell2_translate. Qed.
+Print Assumptions C16_cell2_translation.
+
+Theorem C16_cell2_rotation : forall a b c d P p x, a * a + c * c == 1 -> b * b + d * d == 1 -> a * b + c * d == 0 ->
+  (cell2 (map (lin a b c d) P) (lin a b c d p) (lin a b c d x) <-> cell2 P p x).
+Proof. exact cell2_rotation. Qed.
+Print Assumptions C16_cell2_rotation.
+
+Theorem C16_cell2_scaling : forall a P p x, ~ a == 0 ->
+  (cell2 (map (lin a 0 0 a) P) (lin a 0 0 a p) (lin a 0 0 a x) <-> cell2 P p x).
+Proof. exact cell2_scale. Qed.
+Print Assumptions C16_cell2_scaling.
+
+(* separable layouts: the cell of a product layout is the product of the 1-D cells, so multiplying the 1-D factors is right *)
+Theorem C16_product_cell : forall X Y px py x y, In px X -> In py Y ->
+  (cell2 (list_prod X Y) (px, py) (x, y) <-> cell1 X px x /\ cell1 Y py y).
+Proof. exact cell2_product. Qed.
+Print Assumptions C16_product_cell.
+
+(* ===================== from_traj_voronoi: the decomposition is NOT representation independent ===================== *)
+(* ky constant along k0 stored as (1,5,1) [broadcast] or (1,5,5) [dense], kx = 2 j + i/2 (sheared lines, (1,5,5)):
+   the same 25 samples.  Broadcast: kx is the only non-singleton tensor along k0 -> 1-D factor 2, and kx, ky share k1 ->
+   joint Voronoi over all 25 points, area 2: centre weight 4.  Dense: joint part only: 2 (the true cell area).
+   Replayed on the implementation: known finding KF-C16-1. *)
+Definition ex_kz : ktensor := {| kshape := [1; 1; 1]%nat; kdata := [0] |}.
+Definition ex_ky : ktensor := {| kshape := [1; 5; 1]%nat; kdata := [-2; -1; 0; 1; 2] |}.
+Definition ex_ky_dense : ktensor :=
+  {| kshape := [1; 5; 5]%nat; kdata := flat_map (fun v => [v; v; v; v; v]) [-2; -1; 0; 1; 2] |}.
+Definition ex_kx : ktensor :=
+  {| kshape := [1; 5; 5]%nat;
+     kdata := flat_map (fun i => map (fun j => 2 * j + i / 2) [-2; -1; 0; 1; 2]) [-2; -1; 0; 1; 2] |}.
+
+Theorem C16_from_traj_decomposition_refuted :
+  map (kget ex_ky) (all_idx [1; 5; 5]%nat) = map (kget ex_ky_dense) (all_idx [1; 5; 5]%nat) /\
+  option_map (fun r => nth 12 (snd r) 0) (from_traj [ex_kz; ex_ky; ex_kx]) = Some 4 /\
+  option_map (fun r => nth 12 (snd r) 0) (from_traj [ex_kz; ex_ky_dense; ex_kx]) = Some 2.
+Proof. vm_compute. repeat split. Qed.
+Print Assumptions C16_from_traj_decomposition_refuted.
+
+(* ===================== non-vacuity ===================== *)
+Example C16_example_1d :
+  dcf_1d [0; 1; 3; 3; 7; -2] = [6 # 4; 6 # 4; 12 # 8; 12 # 8; 4; 2]
+  /\ map Qred (map (weight [0; 1; 3; 3; 7; -2]) [0; 1; 3; 3; 7; -2]) = [3 # 2; 3 # 2; 3 # 2; 3 # 2; 4; 2].
+Proof. vm_compute. split; reflexivity. Qed.
+
+(* 3 x 3 unit grid: the centre cell is the unit square, area 1; a sheared lattice with basis (2,0), (1/2,1): area 2 *)
+Example C16_example_2d :
+  let g := flat_map (fun i => map (fun j => (i, j)) [-1; 0; 1]) [-1; 0; 1] in
+  nth 4 (cell_areas g) 0 = 1 /\
+  Qred (area (cell_poly (bigbox 1) (0, 0) (filter (fun q => negb (pt_eqb (0, 0) q)) (g ++ corners 1)))) = 1 /\
+  (* vertices repeat where a bisector passes through an existing vertex; this does not change the area *)
+  cell_poly (bigbox 1) (0, 0) (filter (fun q => negb (pt_eqb (0, 0) q)) (g ++ corners 1))
+    = [(1 # 2, -1 # 2); (1 # 2, 1 # 2); (-1 # 2, 1 # 2); (-1 # 2, 1 # 2); (-1 # 2, -1 # 2); (-1 # 2, -1 # 2); (1 # 2, -1 # 2)].
+Proof. vm_compute. repeat split. Qed.
+
+Example C16_example_from_traj_cartesian :
+  (* two 1-D factors with spacings 2 and 3: interior weight 6 *)
+  option_map (fun r => nth 4 (snd r) 0)
+    (from_traj [ex_kz; {| kshape := [1; 3; 1]%nat; kdata := [0; 2; 4] |}; {| kshape := [1; 1; 3]%nat; kdata := [3; 0; -3] |}])
+  = Some 6.
+Proof. vm_compute. reflexivity. Qed.
